@@ -92,7 +92,10 @@ import z3   # noqa: E402
 
 def main(tier, replay_payload=None):
     big = bytes((i * 7 + i // 251) % 256 for i in range(70001))
-    w_args = dict(pids=["a", "b"], contents=[b"x", b"0123456789ab", big], formats=[None], sym_dirs=False, blksize=4096)
+    # the first pid is spelled exactly like the content identifier of another content of the universe: the digests
+    # reported for a pid are those of the object it is bound to, whatever the pid looks like
+    w_args = dict(pids=[hashlib.sha256(C_MULTI).hexdigest(), "b"], contents=[C_ONE, C_MULTI, big], formats=[None],
+                  sym_dirs=False, blksize=4096)
     menu_fn = menu_for(tier)
     from props import C02_xh
     kf = lambda: C02_xh.kernels(tier)
